@@ -179,6 +179,10 @@ var c13Corpus = [][2]string{
 	{"L/I|0|-|P", "4,4,4,4,4,1,0,0,0,0"},
 	{"I/L|0|-|P", "4,4,4,4,4,1,0,0,0,0"},
 	{"A/I|1|-|P", "4,4,4,4,4,4,2,0,0,0"},
+	// a literal refused with NO, then the second literal of the same command, then the next command
+	{"M/L|0|-|No.P", "4,4,4,4,4,1,0,0,0,0,0,0,0,0,4,4,4,4,4,4,4,5,5,5,5,5,1,0,0,0,0,0"},
+	{"M|1|-|P.P", "4,4,4,4,4,1,0,0,0,0,0,4,4,4,1,0,0,0,0,0"},
+	{"M/N|0|-|P.X", "4,4,4,4,4,1,0,0,0,0,0,4,4,4,1"},
 	// IDLE completed by closeWithError before it registers its continuation request
 	{"I|0|-|X", "4,4,4,1,0,0,0,0,0,0,0"},
 	{"I/N|1|-|-", "4,4,4,2,0,0,0,0,0,0,0"},
@@ -198,6 +202,8 @@ var c13Probes = [][3]string{
 	{"f26idle", "A/I|0|-|P", "5,4,4,4,4,4,4,1,0,0,0"},
 	{"f26idle", "I/L|0|-|P", "4,5,5,5,5,5,1,0,0,0"},
 	{"f26reorderOnly", "I|0|-|X", "4,4,4,1,0,0,0,0,0,0,0,4,4,4"},
+	// 0d4c77c: first literal refused, the request of the second literal takes the next command's "+"
+	{"lateContReq", "M/L|0|-|No.P", "4,4,4,4,4,1,0,0,0,0,0,0,0,0,4,4,4,4,4,4,4,5,5,5,5,5,1,0,0,0,0,0"},
 }
 
 type c13Sched struct {
